@@ -7,3 +7,7 @@ pub(crate) use bucket_leap_array::*;
 pub(crate) use leap_array::*;
 pub(crate) use metric_bucket::*;
 pub(crate) use sliding_window_metric::*;
+
+// verification hook: make the statistic structures reachable from the correspondence harness
+#[cfg(sentinel_verif)]
+pub use {bucket_leap_array::*, leap_array::*, metric_bucket::*, sliding_window_metric::*};
